@@ -9,6 +9,9 @@ PROP = "C01"
 PROP_BITS = (1,)
 
 
+IPA_ERRORS = []
+
+
 def streams(tier, seed):
     rng = random.Random(seed)
     nrand = 2500 if tier == "quick" else 60000
@@ -18,9 +21,14 @@ def streams(tier, seed):
     mal = [malign.gen_case(rng, maxlen) for _ in range(nrand // 2)]
     env.use_repo()
     ipa = []
+    IPA_ERRORS.clear()
     for _ in range(150 if tier == "quick" else 4000):
-        for c in pairwise_ipa.run_history(pairwise_ipa.gen_history(rng)):
-            ipa.append(c)
+        h = pairwise_ipa.gen_history(rng)
+        try:
+            ipa.extend(pairwise_ipa.run_history(h))
+        except Exception as e:   # a later align() call on the same object raised
+            import traceback
+            IPA_ERRORS.append((h, "%s: %s" % (type(e).__name__, e), traceback.format_exc()[-1200:]))
     return [("pairwise_ipa_histories", pairwise_ipa, "mcase", "mcase_code", ipa),
             ("align_exhaustive", align, "align_case", "align_case_code", exh),
             ("align_random", align, "align_case", "align_case_code", rand),
@@ -35,7 +43,13 @@ def main(tier, seed, prop=PROP, prop_bits=PROP_BITS):
     d = coqrun.rundir(prop)
     total_prop = 0
     try:
-        for name, comp, ctype, cfn, cases in streams(tier, seed):
+        all_streams = streams(tier, seed)
+        for h, err, tb in IPA_ERRORS[:3]:
+            run.violation({"stream": "pairwise_ipa_histories", "kind": "Pairwise.align raised on a valid history of "
+                           "calls (valid non-empty sequences, supported modes)", "error": err, "traceback": tb,
+                           "history": h}, no_input=False)
+        total_prop += len(IPA_ERRORS)
+        for name, comp, ctype, cfn, cases in all_streams:
             st = driver.run_stream(run, comp, cases, d, name, ctype, cfn, prop_bits)
             total_prop += st["prop_fail"] + st["impl_errors"]
     except coqrun.CoqError as e:
